@@ -117,6 +117,8 @@ def datetime_iso(draw, profile="json"):
     d = datetime.datetime(year, draw(st.integers(1, 12)), draw(st.integers(1, 28)),
                           draw(st.integers(0, 23)), draw(st.integers(0, 59)), draw(st.integers(0, 59)),
                           draw(st.sampled_from([0, 0, 1, 500000, 999999, 120000])))
+    if draw(st.integers(0, 14)) == 0:
+        d = d.replace(hour=0, minute=0, second=0, microsecond=0)      # midnight (has a second spelling: T24:00:00)
     off = draw(st.sampled_from(_OFFSETS))
     if off is not None:
         d = d.replace(tzinfo=datetime.timezone(datetime.timedelta(minutes=off)))
@@ -132,7 +134,7 @@ _FOREIGN_XSD = ["float", "decimal", "gYear", "integer", "short", "token", "date"
 def typed_literal(profile):
     user_dt = st.builds(lambda ns, l, p: {"ns": ns, "local": l, "prefix": p, "as": "qn"},
                         st.sampled_from(NS_URIS + [TYPES_NS]), st.sampled_from(["T", "t2", "Temp"]),
-                        st.sampled_from(["ty", "ex", "p"]))
+                        st.sampled_from(["ty", "ex", "p"] + ([""] if profile not in ("rdf", "io") else [])))
     xsd_dt = st.sampled_from(_FOREIGN_XSD + (["QName"] if profile == "json" else [])).map(
         lambda l: {"ns": spec.XSD_NS, "local": l, "prefix": "xsd", "as": "qn"})
     lex = st.one_of(st.sampled_from(["1", "1.50", "2012", "abc", "", " 7 ", "ex:foo"]), text_value(profile))
